@@ -6,6 +6,10 @@ import PycsepVerif.Drive.C06
 import PycsepVerif.Drive.C13
 import PycsepVerif.Drive.C07
 import PycsepVerif.Drive.C08
+import PycsepVerif.Drive.C15
+import PycsepVerif.Drive.C14
+import PycsepVerif.Drive.C05
+import PycsepVerif.Drive.C16
 -- REGISTER-IMPORT (one `import PycsepVerif.Drive.Cxx` line per property, above this line)
 
 /-- the per-property handlers, tried in order; each returns `none` for ops it does not know -/
@@ -18,6 +22,10 @@ def handlers : List (List String → Option String) := [
   , Drive.C13.handle
   , Drive.C07.handle
   , Drive.C08.handle
+  , Drive.C15.handle
+  , Drive.C14.handle
+  , Drive.C05.handle
+  , Drive.C16.handle
   -- REGISTER-HANDLER (`, Drive.Cxx.handle` lines above this line)
 ]
 
